@@ -9,12 +9,18 @@ package main
 
 import (
 	"bytes"
+	"encoding/json"
 	"fmt"
+	"strings"
 
 	"github.com/CrowdStrike/csproto"
 	gogotypes "github.com/gogo/protobuf/types"
 	"google.golang.org/protobuf/types/known/anypb"
 	"google.golang.org/protobuf/types/known/apipb"
+	"google.golang.org/protobuf/types/known/durationpb"
+	"google.golang.org/protobuf/types/known/fieldmaskpb"
+	"google.golang.org/protobuf/types/known/timestamppb"
+	"google.golang.org/protobuf/types/known/wrapperspb"
 	"google.golang.org/protobuf/types/known/typepb"
 )
 
@@ -87,7 +93,11 @@ func afterError(c *checker, subs []*subject) {
 				continue
 			}
 			if ferr == nil {
-				c.limit("after-error/runtime-renders-the-unresolvable-any/" + rt)
+				if _, oerr, _ := ownMarshal(rt, failingMidDocument(rt), cb); oerr != nil {
+					r.Fail("after-error/marshal/error-of-the-runtime-swallowed/"+rt, rt+"/"+cb.String(), map[string]any{"runtime_error": oerr.Error()})
+				} else {
+					c.limit("after-error/runtime-renders-the-unresolvable-any/" + rt)
+				}
 				continue
 			}
 			seqs++
@@ -158,5 +168,78 @@ func afterError(c *checker, subs []*subject) {
 				}
 			}
 		}
+	}
+}
+
+// refusals: values the owning runtime REFUSES to render (or to read). The adapter must report an error exactly when the
+// runtime, called directly with the same settings, does - never "success" with no bytes (which is what a nil message
+// yields) - and what it returns together with an error is nothing. Per runtime: an unresolvable Any behind another
+// field, a string holding invalid UTF-8, a Timestamp / Duration outside the representable range, a proto2 message
+// lacking a required field, a NaN-free control value.
+func refusals(c *checker, subs []*subject) {
+	r := c.r
+	var evals int64
+	defer func() { r.Evals(evals) }()
+	type rv struct {
+		name string
+		rt   string
+		mk   func() any
+	}
+	var vals []rv
+	for _, rt := range []string{rtGogo, rtLegacy, rtGV2} {
+		rt := rt
+		vals = append(vals, rv{"unresolvable-any-behind-a-field", rt, func() any { return failingMidDocument(rt) }})
+	}
+	bad := "abc\xff"
+	vals = append(vals,
+		rv{"invalid-utf8-string", rtGV2, func() any { return wrapperspb.String(bad) }},
+		rv{"invalid-utf8-string", rtGogo, func() any { return &gogotypes.StringValue{Value: bad} }},
+		rv{"timestamp-out-of-range", rtGV2, func() any { return &timestamppb.Timestamp{Seconds: 1 << 60} }},
+		rv{"timestamp-out-of-range", rtGogo, func() any { return &gogotypes.Timestamp{Seconds: 1 << 60} }},
+		rv{"duration-out-of-range", rtGV2, func() any { return &durationpb.Duration{Seconds: 1 << 60} }},
+		rv{"duration-out-of-range", rtGogo, func() any { return &gogotypes.Duration{Seconds: 1 << 60} }},
+		rv{"timestamp-nanos-out-of-range", rtGV2, func() any { return &timestamppb.Timestamp{Seconds: 1, Nanos: -5} }},
+		rv{"field-mask-with-an-unrenderable-path", rtGV2, func() any { return &fieldmaskpb.FieldMask{Paths: []string{"a_b", "A"}} }},
+	)
+	// proto2 messages lacking a required field, from the subject list (every runtime that has one)
+	seen := map[string]bool{}
+	for _, s := range subs {
+		if seen[s.rt] || !(strings.HasSuffix(s.typ, ".Required") || strings.HasSuffix(s.typ, ".ReqMix")) {
+			continue
+		}
+		seen[s.rt] = true
+		s := s
+		vals = append(vals, rv{"required-field-missing/" + s.typ, s.rt, func() any { return s.fresh() }})
+	}
+	var refused int64
+	for _, v := range vals {
+		for _, cb := range c.combos {
+			evals++
+			id := v.rt + "/" + v.name + "/" + cb.String()
+			out, err, pan := guardB(func() ([]byte, error) { return csproto.JSONMarshaler(v.mk(), cb.opts()...).MarshalJSON() })
+			oout, oerr, opan := ownMarshal(v.rt, v.mk(), cb)
+			if opan != "" {
+				continue
+			}
+			switch {
+			case pan != "":
+				r.Fail("refusal/marshal/panic/"+v.rt+"/"+v.name, id, map[string]any{"panic": pan, "runtime_error": fmt.Sprint(oerr)})
+			case oerr != nil && err == nil:
+				r.Fail("refusal/marshal/error-of-the-runtime-swallowed/"+v.rt+"/"+v.name, id, map[string]any{"output": trunc(out), "runtime_error": oerr.Error()})
+			case oerr == nil && err != nil:
+				r.Fail("refusal/marshal/error-although-the-runtime-renders-the-value/"+v.rt+"/"+v.name, id, map[string]any{"error": err.Error(), "runtime_output": trunc(oout)})
+			case oerr != nil && len(out) != 0:
+				r.Fail("refusal/marshal/bytes-returned-together-with-an-error/"+v.rt+"/"+v.name, id, map[string]any{"output": trunc(out), "error": err.Error()})
+			case oerr == nil && !json.Valid(out):
+				r.Fail("refusal/marshal/not-well-formed-json/"+v.rt+"/"+v.name, id, map[string]any{"output": trunc(out)})
+			}
+			if oerr != nil {
+				refused++
+			}
+		}
+	}
+	c.count("values_the_runtime_refuses_x_options", refused)
+	if refused == 0 {
+		r.Internal("refusals: no value was refused by any runtime")
 	}
 }
